@@ -86,7 +86,8 @@ def validate(ctx, runs, defs, prop_prefixes, keyfn=None):
                 if not any(clause.startswith(pfx) for pfx in prop_prefixes):
                     stats["clauses_other_properties"][clause] = stats["clauses_other_properties"].get(clause, 0) + 1
                     continue
-                fam = sc["name"].split("/")[0] + "/" + (sc["name"].split("/")[1] if keyfn is None else keyfn(sc)) if sc else "?"
+                parts = sc["name"].split("/") if sc else ["?"]
+                fam = parts[0] + ("/" + parts[1] if len(parts) > 1 and not parts[1].isdigit() else "")
                 ev = next((x for x in trace if x.get("seq") == int(seq)), None)
                 if ev and "bytes" in ev:
                     ev = dict(ev)
@@ -113,12 +114,147 @@ def model_check(ctx, family):
             ctx.mc("MC_Node", cfg + ".cfg", timeout=3000, heap="16g")
 
 
+GEN_FAMILY = {"events": "events", "close": "close", "fanout": "fanout", "stall": "fanout", "auto": "auto", "faults": "events"}
+
+
 def generated(ctx, family):
-    """Scenarios generated by TLC from the INode model (filled in by Gen_Node when available)."""
-    return []
+    """Scenarios generated by TLC (-simulate) from the INode model: the environment actions of each behaviour and,
+    at the Close call, where every goroutine of the model was parked (replayed with gate hooks)."""
+    import scenarios
+    cfg = GEN_FAMILY.get(family)
+    if not cfg:
+        return []
+    num = 2500 if ctx.thorough() else 120
+    rc, out = ctx.tlc("Gen_Node", "Gen_Node_%s.cfg" % cfg, workers=1, timeout=600, heap="4g", tag="gen:node_" + cfg, count=False,
+                      extra=["-simulate", "num=%d" % num, "-depth", "150", "-seed", str(ctx.seed)])
+    hists = []
+    seen = set()
+    for ln in out.splitlines():
+        if ln.startswith('"SCEN '):
+            body = ln[6:-1].replace('\\"', '"')
+            if body in seen:
+                continue
+            seen.add(body)
+            hists.append(json.loads(body))
+    if not hists:
+        raise vf.Inconclusive("Gen_Node_%s produced no behaviour:\n%s" % (cfg, vf.tail(out, 30)))
+    limit = 1500 if ctx.thorough() else 40
+    # prefer behaviours whose Close finds goroutines parked, then the longest
+    hists.sort(key=lambda h: (-max([len(x.get("parked", [])) for x in h if x["e"] == "close"] + [0]), -len(h)))
+    scs = [to_scenario(h, i, cfg) for i, h in enumerate(hists[:limit])]
+    ctx.cov.setdefault("tlc_generated_scenarios", {})[cfg] = len(scs)
+    ctx.cov.setdefault("tlc_behaviours", {})[cfg] = len(hists)
+    return scs
 
 
-MC_CONFIGS = {}
+def to_scenario(hist, idx, cfg):
+    """Map a model behaviour to player steps. Channels <<e, i>> become (endpoint index, instance)."""
+    import scenarios
+    eps = sorted(set([x["ch"][0] for x in hist if "ch" in x] + ["e1"] + (["e2"] if cfg != "events" else [])))
+    epi = {e: i for i, e in enumerate(eps)}
+    tag = [700000 + 1000 * idx]
+
+    def nt():
+        tag[0] += 1
+        return tag[0]
+
+    hb = cfg in ("events", "close", "auto")
+    conf = scenarios.conf(hb_disable=not hb, hb_period_ms=4, sr_enable=(cfg == "auto"), skip_hb_rate=True)
+    steps = []
+    closes = [i for i, x in enumerate(hist) if x["e"] == "close"]
+    ci = closes[0] if closes else None
+    parked = hist[ci]["parked"] if ci is not None else []
+    # where to arm each gate: before the last relevant environment step preceding the Close
+    arm = {}     # hist index -> [(point, ep)]
+    start = []
+    for point, ch in parked:
+        ep = epi.get(ch[0], 0)
+        inst = ch[1]
+        if point == "hb.send":
+            start.append((point, -1))
+            continue
+        rel = None
+        for j in range(ci - 1, -1, -1):
+            x = hist[j]
+            if point in ("rd.pushEvent",) and x["e"] == "arrive" and x["ch"][0] == ch[0] and x["r"] != "fatal":
+                rel = j
+                break
+            if point in ("run.pushClose", "run.closeChannel") and x["e"] == "arrive" and x["ch"][0] == ch[0] and x["r"] == "fatal":
+                rel = j
+                break
+            if point in ("rd.pushOpen", "prov.newChannel") and inst > 1 and x["e"] == "arrive" and x["ch"][0] == ch[0] and x["r"] == "fatal":
+                rel = j
+                break
+            if point == "wr.write" and x["e"] == "write":
+                rel = j
+                break
+        if rel is None:
+            if point in ("rd.pushOpen", "prov.newChannel"):
+                start.append((point, ep))
+        else:
+            arm.setdefault(rel, []).append((point, ep))
+    for point, ep in start:
+        steps.append({"op": "hold_at_start", "point": point, "ep": ep})
+    gated_start = set(ep for point, ep in start if point in ("rd.pushOpen", "prov.newChannel"))
+    for e in eps:
+        if epi[e] not in gated_start:
+            steps.append({"op": "wait_open", "ep": epi[e]})
+    inst = {e: 1 for e in eps}
+    closed = False
+    for j, x in enumerate(hist):
+        for point, ep in arm.get(j, []):
+            steps.append({"op": "quiesce", "ms": 200})
+            steps.append({"op": "hold", "point": point, "ep": ep})
+        if x["e"] == "arrive":
+            ep = epi[x["ch"][0]]
+            if x["r"] == "fatal":
+                steps.append({"op": "read_err", "ep": ep})
+                inst[x["ch"][0]] += 1
+                if not closed and not arm.get(j):
+                    steps.append({"op": "sleep", "ms": 3})
+            else:
+                kind = {"ok": "valid", "bad": "badck", "ap": "hb"}[x["r"]]
+                steps.append(scenarios.feed(ep, kind, nt(), autopilot=3 if x["r"] == "ap" else 0, sys=1 + j % 2, comp=1))
+        elif x["e"] == "write":
+            g = 1 if x["w"] == "w1" else 2
+            kind = {"all": "MsgAll", "to": "MsgTo", "except": "MsgExcept"}[x["kind"]]
+            if x["kind"] == "all":
+                steps.append(scenarios.write(g, kind, nt()))
+            else:
+                steps.append(scenarios.write(g, kind, nt(), ep=epi[x["ch"][0]], inst=x["ch"][1]))
+        elif x["e"] == "consumer":
+            steps.append({"op": "consumer", "run": x["run"]})
+            steps.append({"op": "sleep", "ms": 2})
+        elif x["e"] == "tmode":
+            steps.append({"op": "twrite_mode", "ep": epi[x["ch"][0]], "mode": x["mode"], "at": 1 if x["mode"] == "fail" else 0})
+        elif x["e"] == "close":
+            for point, ch in parked:
+                steps.append({"op": "wait_held", "point": point, "ep": -1 if point == "hb.send" else epi.get(ch[0], 0)})
+            steps.append({"op": "close", "from": "async"})
+            steps.append({"op": "sleep", "ms": 5})
+            closed = True
+        for point, ep in arm.get(j, []):
+            pass
+    if closed:
+        steps.append({"op": "wait_closed"})
+    else:
+        steps.append({"op": "wait_writes"})
+        steps.append({"op": "consumer", "run": True})
+        steps.append({"op": "quiesce", "ms": 1500})
+    return {"name": "tlc_%s/%d" % (cfg, idx), "conf": conf, "endpoints": scenarios.customs(len(eps)), "steps": steps,
+            "model_behaviour": hist}
+
+
+# (config, thorough_only)
+MC_CONFIGS = {
+    "events": [("MC_Node_events_a", False), ("MC_Node_events_c", False), ("MC_Node_events_b", False), ("MC_Node_events_d", False)],
+    "fanout": [("MC_Node_fanout_b", False), ("MC_Node_fanout_q", False), ("MC_Node_fanout_a", True)],
+    "close": [("MC_Node_close_a", False), ("MC_Node_close_b", False), ("MC_Node_close_e", False),
+              ("MC_Node_close_c", True), ("MC_Node_close_d", True), ("MC_Node_close_a_safe", True)],
+    "stall": [("MC_Node_fanout_q", False), ("MC_Node_fanout_a", True)],
+    "faults": [("MC_Node_events_c", False), ("MC_Node_events_b", False)],
+    "auto": [("MC_Node_auto_a", False)],
+}
 
 
 def run_family(ctx, scs, prefixes, rule, family=None, binary=None, timeout=90, workers=None):
